@@ -38,6 +38,12 @@ def text_boundaries(frames):
 
 
 # ------------------------------------------------------------------------------------------------
+def ext_header(deflate):
+    """the negotiated Sec-WebSocket-Extensions value: falsy = none, 1/True = plain permessage-deflate, str = its parameters"""
+    if not deflate: return None
+    return "permessage-deflate" if deflate in (1, True) else "permessage-deflate; " + deflate
+
+
 class Peer:
     """in-memory wsproto endpoint: serialises raw frames (so that text frames may end inside a
     character) and decodes what the proxy sends to it"""
@@ -45,7 +51,8 @@ class Peer:
     def __init__(self, kind, deflate):
         ext = []
         if deflate:
-            e = wsproto.extensions.PerMessageDeflate(); e.finalize("permessage-deflate"); ext = [e]
+            # the peer honours exactly what the 101 response negotiated (window bits, context takeover)
+            e = wsproto.extensions.PerMessageDeflate(); e.finalize(ext_header(deflate)); ext = [e]
         self.conn = wsproto.Connection(kind, ext)
 
     def frame(self, f):
@@ -215,7 +222,7 @@ def run_e2e(case):
     upgrade request / the `101 Switching Protocols` response.  The model is fed what the layer's wsproto connections
     actually received (logged at `receive_data`), the oracle judges against what the peers sent."""
     from mitmproxy.proxy.layers import http as H
-    deflate = bool(case.get("deflate"))
+    deflate = case.get("deflate")
     policy = case.get("policy", [])
     ctx = make_context()
     ctx.server.address = ("example.com", 80)
@@ -250,7 +257,7 @@ def run_e2e(case):
     w.start()
     peers = rec.peers
     label = {"c": "client", "s": "server0"}
-    ext = EXT if deflate else b""
+    ext = (b"Sec-WebSocket-Extensions: " + ext_header(deflate).encode() + b"\r\n") if deflate else b""
     w.recv("client", REQUEST + ext + b"\r\n" + b"".join(peers["c"].frame(f) for f in case.get("cpiggy", [])))
     data = RESPONSE + ext + b"\r\n" + b"".join(peers["s"].frame(f) for f in case.get("spiggy", []))
     chunks, p = [], 0
@@ -293,14 +300,14 @@ def run_e2e(case):
 
 
 def run_layer(case):
-    deflate = bool(case.get("deflate"))
+    deflate = case.get("deflate")
     policy = case.get("policy", [])
     ctx = make_context()
     ctx.server = connection.Server(address=("example.com", 80))
     flow = HTTPFlow(ctx.client, ctx.server)
     flow.request = Request.make("GET", "http://example.com/", headers={"Connection": "upgrade", "Upgrade": "websocket", "Sec-WebSocket-Version": "13"})
     h = {"Connection": "upgrade", "Upgrade": "websocket"}
-    if deflate: h["Sec-WebSocket-Extensions"] = "permessage-deflate"
+    if deflate: h["Sec-WebSocket-Extensions"] = ext_header(deflate)
     flow.response = Response.make(101, headers=h)
     flow.websocket = WebSocketData()
     lay = W.WebsocketLayer(ctx, flow)
@@ -790,6 +797,65 @@ class Check(PropertyCheck):
             case["mut"] = [[rng.randint(0, min(total - 1, 13)), rng.getrandbits(8)]]; case["events"] = 0
         return case
 
+    DEFLATE_PARAMS = ["server_no_context_takeover", "client_no_context_takeover",
+                      "server_max_window_bits={b}", "client_max_window_bits={b}"]
+
+    @staticmethod
+    def _far_repeat(rng, dist):
+        """incompressible bytes in which a 48-byte block recurs exactly `dist` bytes later (a back-reference of that distance)"""
+        blk = rng.bytes_(48)
+        return blk + rng.bytes_(max(0, dist - 48)) + blk
+
+    def _deflate_script(self, rng, sd, pattern, bits):
+        B = lambda p: {"op": "frames", "from": sd, "frames": [{"t": "b", "fin": 1, "p_hex": hx(p)}], "seg": []}
+        if pattern == "repeat-message":       # a later message repeats an earlier one (context takeover or not)
+            m = rng.bytes_(rng.pick([40, 200]))
+            return [B(m), B(m), B(m[:20] + m)], 3
+        d = (1 << bits) + rng.pick([-212, -60, -1, 0, 1, 60, 188, 700])
+        if pattern == "far-repeat":           # a back-reference around the negotiated window size inside one message
+            return [B(self._far_repeat(rng, d))], 1
+        # the same distance across two messages
+        blk = rng.bytes_(48)
+        return [B(blk + rng.bytes_(max(0, d - 96))), B(blk + b"tail")], 2
+
+    def _deflate_small(self, tier):
+        """negotiated permessage-deflate parameter sets — each parameter alone and in pairs, in every position, window
+        bits 9/10/15 (wsproto and zlib refuse 8) — x messages that repeat earlier data at distances around 2^bits,
+        inside one message and across messages, in both directions; the in-memory peers are configured from the same
+        negotiated header and therefore reject a back-reference they were promised not to get"""
+        from common.prng import Rng
+        rng = Rng(2806)
+        sets = []
+        for b in (9, 10, 15):
+            singles = [p.format(b=b) for p in self.DEFLATE_PARAMS]
+            sets += [[x] for x in singles]
+            for i, x in enumerate(singles):
+                for j, y in enumerate(singles):
+                    if i != j and (tier == "thorough" or (i + j + b) % 3 == 0): sets.append([x, y])
+        sets.append([p.format(b=9) for p in self.DEFLATE_PARAMS]); sets.append([p.format(b=10) for p in reversed(self.DEFLATE_PARAMS)])
+        for ps in sets:
+            bits = [int(x.split("=")[1]) for x in ps if "=" in x] or [15]
+            for sd in ("c", "s"):
+                for pattern in ("repeat-message", "far-repeat", "far-repeat-across"):
+                    script, n = self._deflate_script(rng, sd, pattern, min(bits))
+                    yield {"kind": "layer", "deflate": "; ".join(ps), "script": script, "policy": ["k"] * n}
+
+    def _deflate_case(self, rng):
+        b = rng.pick([9, 10, 11, 15])
+        ps = [p.format(b=b) for p in self.DEFLATE_PARAMS]
+        rng.shuffle(ps)
+        ps = ps[:rng.randint(1, 4)]
+        script, policy = [], []
+        for _ in range(rng.randint(1, 3)):
+            sc, n = self._deflate_script(rng, rng.pick(["c", "s"]), rng.pick(["repeat-message", "far-repeat", "far-repeat-across"]), b)
+            script += sc
+            for _ in range(n):
+                policy.append(rng.pick(["k", "k", "k", "d", "e" + hx(self._far_repeat(rng, (1 << b) + rng.pick([-60, 188])))]))
+        case = {"kind": "layer", "deflate": "; ".join(ps), "script": script, "policy": policy}
+        if rng.chance(0.3):
+            case = {"kind": "e2e", "deflate": case["deflate"], "cpiggy": [], "spiggy": [], "sseg": [], "script": script, "policy": policy}
+        return case
+
     def _e2e_case(self, rng):
         base = self._layer_case(rng)
         def piggy():
@@ -827,12 +893,15 @@ class Check(PropertyCheck):
             for t in itertools.product(SOUP, repeat=3):
                 yield {"kind": "san", "data_hex": hx(bytes(t))}
         yield from self._e2e_small(tier)
+        yield from self._deflate_small(tier)
         n = 0
         while True:
             n += 1
             r = rng.random()
             if r < 0.02:
                 yield self._e2e_case(rng)
+            elif r < 0.035:
+                yield self._deflate_case(rng)
             elif r < 0.10:
                 yield self._wire_case(rng)
             elif r < 0.16:
@@ -1070,6 +1139,10 @@ class Check(PropertyCheck):
             if obs["events"] == "fail": out.append("wire:event-fail")
             return sorted(set(out))
         out = [f"{k}:deflate" if case["deflate"] else f"{k}:plain"]
+        if isinstance(case["deflate"], str):
+            for i, prm in enumerate(case["deflate"].split("; ")):
+                out.append(f"deflate:{prm.split('=')[0]}@{min(i, 2)}")
+                if "=" in prm: out.append("deflate:bits=" + prm.split("=")[1])
         for op in case["script"]: out.append(f"{k}:op:" + op["op"])
         for a in case["policy"]: out.append(f"{k}:policy:" + a[0])
         if k == "e2e":
@@ -1121,6 +1194,7 @@ class Check(PropertyCheck):
 
     def exhaustive(self, tier):
         yield from self._e2e_small("thorough")
+        yield from self._deflate_small("thorough")
         # every (text) fragmentation of short two-character strings against every pair of original lengths
         for s in ("aé", "é€", "€😀", "😀a", "ééé"):
             b = s.encode()
